@@ -135,6 +135,44 @@ def part_b(_item):
                 p = tf.properties['t%d' % i]
                 if (int(p.seconds), int(p.second_fractions)) != (s, f):
                     bad('read-prop', (s, f), (int(p.seconds), int(p.second_fractions)))
+            # the same file lazily, element by element and chunk by chunk (raw), and in the default datetime64 mode
+            exp_raw = b''.join(ref.values["/'g'/'t'"])
+            res['counters']['cases'] += 1
+
+            def lazy_raw():
+                lz = H.TdmsFile.open(io.BytesIO(data), raw_timestamps=True)
+                try:
+                    ch = lz['g']['t']
+                    a1 = b''.join(H.norm_scalar(ch[i])[1] for i in range(len(ch)))
+                    a2 = b''.join(H.norm_array(c[:])[2] for c in ch.data_chunks())
+                    a3 = b''.join(H.norm_array(dc['g']['t'][:])[2] for dc in lz.data_chunks())
+                    return a1, a2, a3
+                finally:
+                    lz.close()
+            rr = H.guarded(lazy_raw)
+            if rr[0] != 'ok' or any(x != exp_raw for x in rr[1]):
+                bad('read-data-lazy', 'bit-exact raw timestamps through index / chunk streams (big=%s il=%s)' % (big, il), repr(rr)[:200])
+            pairs = np.frombuffer(exp_raw, dtype=[('f', '<u8'), ('s', '<i8')])
+            # (properties outside the datetime64[us] range cannot be converted at all: the default-mode file leaves them out)
+            h2 = [G.seg([(o_['path'], o_['enc'], [p_ for p_ in o_['props'] if abs(struct.unpack('<Qq', bytes.fromhex(p_[2]))[1]) < 9 * 10 ** 12])
+                         for o_ in h[0]['objects']], chunks=2, big=big, interleaved=il)]
+            data2 = G.encode(h2)[0]
+            for lz_ in (False, True):
+                res['counters']['cases'] += 1
+                rd = H.guarded(lambda: (H.TdmsFile.open if lz_ else H.TdmsFile.read)(io.BytesIO(data2))['g']['t'][:])
+                if rd[0] != 'ok' or rd[1].dtype != np.dtype('datetime64[us]') or len(rd[1]) != len(pairs):
+                    bad('read-default', 'datetime64[us] array (big=%s il=%s lazy=%s)' % (big, il, lz_), repr(rd)[:200])
+                    continue
+                ints = rd[1].astype('int64')
+                ep = int(np.datetime64('1904-01-01T00:00:00', 'us').astype('int64'))
+                for j in range(len(pairs)):
+                    sec, fr = int(pairs['s'][j]), int(pairs['f'][j])
+                    if abs(sec) > 9 * 10 ** 12:
+                        continue   # outside datetime64[us]
+                    exact = Fraction(sec * 10 ** 6) + Fraction(fr * 10 ** 6, 2 ** 64)
+                    if abs((int(ints[j]) - ep) - exact) > 1 + ALLOW:
+                        bad('read-default', 'within 1 us of %s' % float(exact), int(ints[j]) - ep)
+                        break
     # write: TdmsTimestamp property and TimestampArray data, then defragment, all bit-exact
     arr = TimestampArray(np.array([(f, s) for s, f in RAW], dtype=[('second_fractions', '<u8'), ('seconds', '<i8')]))
 
